@@ -88,3 +88,22 @@ Theorem C04_scq_diff_signed : forall a b, a < 2 ^ 64 -> b < 2 ^ 64 ->
   slt 64 (diff a b) 0 = true <-> a < b.
 Proof. exact diff_signed. Qed.
 Print Assumptions C04_scq_diff_signed.
+
+(** ramalhete_queue entry index arithmetic, GENERATED from xenium/ramalhete_queue.hpp (gen/RamalheteNodeGen.v):
+    a ticket j of a node uses entry (step_size * j) mod entries_per_node with step_size = [C_step_size E]
+    (1 if 11 divides E, else 11); within one node distinct tickets use distinct entries, for every node size *)
+From XV Require Import gen.RamalheteNodeGen Proof.RamalheteNode.
+Local Open Scope N_scope.
+
+Theorem C04_ramalhete_slots_distinct : forall E j1 j2,
+  0 < E -> C_step_size E * E < 2 ^ 32 -> j1 < E -> j2 < E ->
+  (C_step_size E * j1) mod E = (C_step_size E * j2) mod E -> j1 = j2.
+Proof. exact slots_distinct. Qed.
+Print Assumptions C04_ramalhete_slots_distinct.
+
+(** documentation of the repaired defect: with the former unconditional step_size = 11 two tickets of one
+    node share an entry (E = 11: every ticket maps to entry 0) *)
+Theorem C04_ramalhete_old_step_collides : exists E j1 j2,
+  0 < E /\ j1 < E /\ j2 < E /\ j1 <> j2 /\ (11 * j1) mod E = (11 * j2) mod E.
+Proof. exact old_step_collides. Qed.
+Print Assumptions C04_ramalhete_old_step_collides.
